@@ -76,6 +76,9 @@ pub struct Analysis<'a> {
     pub any_full: bool,
     pub parked_count: usize,
     pub tid_of_thread: Vec<usize>,
+    /// expectations by (trace id, node)
+    pub by_key: HashMap<(u128, u32), Vec<usize>>,
+    pub memo_batch: std::cell::RefCell<HashMap<(u128, u32, PRef), Option<usize>>>,
 }
 
 pub fn outer(op: OpRef) -> usize {
@@ -308,7 +311,10 @@ impl<'a> Analysis<'a> {
             for (r, l) in consumed.iter() {
                 used.insert(*r, vec![false; l.len()]);
             }
-            let order: Vec<usize> = (0..cmds.len()).collect();
+            // commands believed lost (exit flush with a full ring) are matched last, so that among
+            // identical commands the consumed ones go to those that entered the ring
+            let mut order: Vec<usize> = (0..cmds.len()).filter(|&i| !cmds[i].lost).collect();
+            order.extend((0..cmds.len()).filter(|&i| cmds[i].lost));
             for ci in order {
                 let c = &cmds[ci];
                 if c.lost && !c.force {
@@ -322,6 +328,7 @@ impl<'a> Analysis<'a> {
                 let pos = (0..list.len()).find(|&k| !u[k] && list[k].0 == c.kind && list[k].1 == c.collects);
                 if let Some(k) = pos {
                     u[k] = true;
+                    cmds[ci].lost = false;
                     cmds[ci].cycle = Some(list[k].2);
                     cmds[ci].consumed_at = Some(list[k].3);
                     let tid = cmds[ci].tid;
@@ -380,6 +387,8 @@ impl<'a> Analysis<'a> {
             any_full,
             parked_count,
             tid_of_thread,
+            by_key: HashMap::new(),
+            memo_batch: std::cell::RefCell::new(HashMap::new()),
         };
         a.match_records();
         a
@@ -440,6 +449,7 @@ impl<'a> Analysis<'a> {
         for (i, r) in self.model.recs.iter().enumerate() {
             by_key.entry((r.trace_id, r.node)).or_default().push(i);
         }
+        self.by_key = by_key.clone();
         let mut delivered = vec![];
         for (bi, b) in self.hist.batches.iter().enumerate() {
             for (ri, r) in b.recs.iter().enumerate() {
@@ -516,13 +526,10 @@ impl<'a> Analysis<'a> {
     /// expectations identical to `i` (same trace, node, parent): the same-trace multi-parent case
     pub fn twins(&self, i: usize) -> Vec<usize> {
         let r = &self.model.recs[i];
-        self.model
-            .recs
-            .iter()
-            .enumerate()
-            .filter(|(_, x)| x.trace_id == r.trace_id && x.node == r.node && x.parent == r.parent)
-            .map(|(j, _)| j)
-            .collect()
+        match self.by_key.get(&(r.trace_id, r.node)) {
+            Some(l) => l.iter().copied().filter(|&j| self.model.recs[j].parent == r.parent).collect(),
+            None => vec![i],
+        }
     }
 
     /// consumption cycle of the k-th kind command of runtime collect id
